@@ -713,11 +713,11 @@ pub fn main(ctx: &Ctx) {
         "C16" => campaign(
             ctx,
             Campaign {
-                total_cases: ctx.pick(600, 15_000),
+                total_cases: ctx.pick(1_200, 15_000),
                 max_shrink_iters: 200,
                 limits: Limits { cpu_s: 30, wall_s: 180, as_bytes: 4 << 30 },
                 meta: Meta {
-                    rule: "histories of 2-12(24) ops over one local writer (or reader) and up to 3 remote readers (writers), each in its own participant: create, delete, set_qos to an incompatible/compatible deadline, move the remote group to another partition and back, silent crash of the remote participant (100 s lease expiry in virtual time), status reads, writes; model R-COUNT: current_count == |matched set|, total_count == number of became-matched transitions, change fields == difference since last read; wire monitor: no DATA/HEARTBEAT toward the participant of a reader that left the matched set; non-trivial = an endpoint left or re-entered the matched set; distinct = hash of the case",
+                    rule: "histories of 2-12(24) ops over one local writer (or reader) and up to 3 remote readers (writers), each in its own participant: create, delete, set_qos to an incompatible/compatible deadline, move the remote group to another partition and back, silent crash of the remote participant (100 s lease expiry in virtual time), deletion and re-creation of the local endpoint (the new one must match exactly the remote endpoints alive and compatible then), status reads, writes; model R-COUNT: current_count == |matched set|, total_count == number of became-matched transitions, change fields == difference since last read; wire monitor: no DATA/HEARTBEAT toward the participant of a reader that left the matched set; non-trivial = an endpoint left or re-entered the matched set; distinct = hash of the case",
                     assumptions: &[
                         "deterministic simulation, loss-free network, 1.5 s virtual quiescence after each discovery-relevant op, 102 s after a crash",
                         "one remote endpoint per remote participant so that wire traffic toward a participant identifies the endpoint",
@@ -767,6 +767,10 @@ pub enum C16Op {
     ReadStatus,
     /// write a sample on the writer side (local or remote)
     Write,
+    /// delete the local endpoint (remote endpoints stay discovered but have nothing to match)
+    LocalDelete,
+    /// create the local endpoint again: it must match exactly the remote endpoints that are alive and compatible now
+    LocalCreate,
 }
 
 #[derive(Clone, Debug, Serialize, Deserialize)]
@@ -783,9 +787,11 @@ pub fn c16_strategy(thorough: bool) -> BoxedStrategy<C16Case> {
         2 => (0u8..3).prop_map(|k| C16Op::Delete { k }),
         5 => (prop_oneof![3 => Just(0u8), 1 => 1u8..3], any::<bool>()).prop_map(|(k, incompatible)| C16Op::SetIncompatible { k, incompatible }),
         3 => (prop_oneof![3 => Just(0u8), 1 => 1u8..3], any::<bool>()).prop_map(|(k, other)| C16Op::SetPartition { k, other }),
-        1 => (0u8..3).prop_map(|k| C16Op::Crash { k }),
+        2 => (0u8..3).prop_map(|k| C16Op::Crash { k }),
         3 => Just(C16Op::ReadStatus),
         2 => Just(C16Op::Write),
+        1 => Just(C16Op::LocalDelete),
+        2 => Just(C16Op::LocalCreate),
     ];
     (any::<bool>(), prop::collection::vec(op, 2..n))
         .prop_map(|(local_is_writer, ops)| C16Case { local_is_writer, ops })
@@ -846,12 +852,12 @@ async fn c16_scenario(c: C16Case) -> C16Obs {
     let ltopic = local.create_topic::<KeyedData>("T", "KeyedData", QosKind::Default, NO_LISTENER, NO_STATUS).await.unwrap();
     let lpub = local.create_publisher(QosKind::Default, NO_LISTENER, NO_STATUS).await.unwrap();
     let lsub = local.create_subscriber(QosKind::Default, NO_LISTENER, NO_STATUS).await.unwrap();
-    let lwriter = if c.local_is_writer {
+    let mut lwriter = if c.local_is_writer {
         Some(lpub.create_datawriter::<KeyedData>(&ltopic, QosKind::Specific(c16_wqos(false)), NO_LISTENER, NO_STATUS).await.unwrap())
     } else {
         None
     };
-    let lreader = if !c.local_is_writer {
+    let mut lreader = if !c.local_is_writer {
         Some(lsub.create_datareader::<KeyedData>(&ltopic, QosKind::Specific(c16_rqos(false)), NO_LISTENER, NO_STATUS).await.unwrap())
     } else {
         None
@@ -871,7 +877,7 @@ async fn c16_scenario(c: C16Case) -> C16Obs {
         };
     }
     // every history starts with one remote endpoint so that the generated ops have something to act on
-    let all_ops: Vec<C16Op> = [C16Op::Create { k: 0 }].into_iter().chain(c.ops.iter().cloned()).chain([C16Op::Write, C16Op::ReadStatus]).collect();
+    let all_ops: Vec<C16Op> = [C16Op::Create { k: 0 }].into_iter().chain(c.ops.iter().cloned()).chain([C16Op::LocalCreate, C16Op::Write, C16Op::ReadStatus]).collect();
     'ops: for (opi, op) in all_ops.iter().enumerate() {
         o.ops_done = opi;
         match op {
@@ -1034,6 +1040,8 @@ async fn c16_scenario(c: C16Case) -> C16Obs {
                 let sample = KeyedData { id: 1, seq, blob: vec![1, 2, 3] };
                 if let Some(w) = &lwriter {
                     let _ = crate::util::timeout(2_000, w.write(sample, None)).await;
+                } else if c.local_is_writer {
+                    continue;
                 } else {
                     for r in remotes.iter().flatten() {
                         if let (Some((_, w)), false) = (&r.writer, r.crashed) {
@@ -1043,7 +1051,45 @@ async fn c16_scenario(c: C16Case) -> C16Obs {
                 }
                 settle!(300);
             }
+            C16Op::LocalDelete => {
+                if let Some(w) = lwriter.take() {
+                    if lpub.delete_datawriter(&w).await.is_err() {
+                        o.setup_error = Some("delete of the local writer failed".into());
+                        break 'ops;
+                    }
+                    classes.insert("local_endpoint_deleted".to_string());
+                } else if let Some(r) = lreader.take() {
+                    if lsub.delete_datareader(&r).await.is_err() {
+                        o.setup_error = Some("delete of the local reader failed".into());
+                        break 'ops;
+                    }
+                    classes.insert("local_endpoint_deleted".to_string());
+                }
+                settle!(1500);
+            }
+            C16Op::LocalCreate => {
+                if lwriter.is_some() || lreader.is_some() {
+                    continue;
+                }
+                if c.local_is_writer {
+                    lwriter = Some(lpub.create_datawriter::<KeyedData>(&ltopic, QosKind::Specific(c16_wqos(false)), NO_LISTENER, NO_STATUS).await.unwrap());
+                } else {
+                    lreader = Some(lsub.create_datareader::<KeyedData>(&ltopic, QosKind::Specific(c16_rqos(false)), NO_LISTENER, NO_STATUS).await.unwrap());
+                }
+                // a new entity: its counts start from the remote endpoints that are eligible now
+                total = remotes.iter().flatten().filter(|r| r.matched).count() as i32;
+                last_read_total = 0;
+                last_read_current = 0;
+                if remotes.iter().flatten().any(|r| r.crashed) {
+                    classes.insert("local_endpoint_created_after_a_remote_participant_was_lost".to_string());
+                }
+                classes.insert("local_endpoint_recreated".to_string());
+                settle!(1500);
+            }
             C16Op::ReadStatus => {
+                if lwriter.is_none() && lreader.is_none() {
+                    continue;
+                }
                 let expected_current = remotes.iter().flatten().filter(|r| r.matched).count() as i32;
                 let (cur, tot, cur_change, tot_change) = if let Some(w) = &lwriter {
                     match w.get_publication_matched_status().await {
